@@ -48,6 +48,12 @@ def relevance_slice(hyps, goal):
     hypotheses is sound for proving; a `sat` on the slice is re-examined on the full set)"""
     syms = [fresh_symbols(h) for h in hyps]
     rel = set(fresh_symbols(goal))
+    if not rel:
+        # goal `False` (a path that must be infeasible): seed with the condition that opened the path
+        for sy in reversed(syms):
+            if sy:
+                rel = set(sy)
+                break
     keep = [len(s) == 0 for s in syms]
     changed = True
     while changed:
